@@ -348,6 +348,8 @@ func (b Builder) Slice(x, low, high, max Expr) (ret Expr) {
 		telem := t.Elem()
 		switch te := telem.Underlying().(type) {
 		case *types.Array:
+			// slicing a nil array pointer must panic, not build a slice from nil
+			b.AssertNilDeref(x)
 			elem := prog.rawType(te.Elem())
 			ret.Type = prog.Slice(elem)
 			nEltSize = SizeOf(prog, elem)
